@@ -108,11 +108,11 @@ func runC12(c *eng.Ctx) {
 		tie := eng.CmpEdges(fn, cnt, cnt, eng.EQ)
 		okTie, okCnt := false, false
 		for _, r := range eng.Returns(fn) {
-			if eng.RelVal(id, id, eng.LT)(r.Results[0]) {
+			if eng.RelVal(id, id, eng.LT)(eng.RetVals(r)[0]) {
 				g, _ := eng.GuardedBy(fn, r, tie)
 				okTie = g && len(tie) > 0
 			}
-			if eng.RelVal(cnt, cnt, eng.LT)(r.Results[0]) {
+			if eng.RelVal(cnt, cnt, eng.LT)(eng.RetVals(r)[0]) {
 				okCnt = true
 			}
 		}
